@@ -28,6 +28,7 @@ struct Pending {
 }
 
 pub struct Ctx {
+    pub last_desc: String,
     pub prop: String,
     pub thorough: bool,
     pub seed: u64,
@@ -58,6 +59,7 @@ pub fn hash_of<T: Hash>(t: &T) -> u64 {
 impl Ctx {
     pub fn new(prop: &str, thorough: bool, seed: u64, driver: &str, known_classes: Vec<(String, String)>) -> Ctx {
         Ctx {
+            last_desc: String::new(),
             prop: prop.to_string(),
             thorough,
             seed,
@@ -97,6 +99,7 @@ impl Ctx {
     /// a correspondence case: the real result and the request for the model
     pub fn case(&mut self, op: Op, desc: String) {
         self.evaluations += 1;
+        self.last_desc = desc.clone();
         if self.samples.len() < 6 && (self.evaluations % 997 == 1 || self.evaluations < 3) {
             self.samples.push(format!("{} => {}", desc, op.real_short()));
         }
